@@ -19,10 +19,10 @@ cargo test --offline --features internal-test-strategies,weak,serde 2>&1 | grep 
 if [ -f /tmp/confirm_hold_$ID/mutant_demo.rs ]; then
   mv /tmp/confirm_hold_$ID/mutant_demo.rs tests/
   echo "-- demo WITH the change (expected: fails)"
-  timeout 600 cargo test --offline --test mutant_demo 2>&1 | grep -E '^test result|^test .*(FAILED|ok)|panicked at' | head -12
+  timeout 600 cargo test --offline $DEMOFEAT --test mutant_demo 2>&1 | grep -E '^test result|^test .*(FAILED|ok)|panicked at' | head -12
   git apply -R $SD/$ID/patch.diff
   echo "-- demo WITHOUT the change (expected: passes)"
-  timeout 900 cargo test --offline --test mutant_demo 2>&1 | grep -E '^test result|^test .*(FAILED|ok)|panicked at' | head -12
+  timeout 900 cargo test --offline $DEMOFEAT --test mutant_demo 2>&1 | grep -E '^test result|^test .*(FAILED|ok)|panicked at' | head -12
   git apply $SD/$ID/patch.diff
 else
   echo "-- no tests/mutant_demo.rs (demo is a separate program; see notes.md)"
